@@ -93,6 +93,16 @@ class Ctx:
             self.bad(rid, func_or_where, node, construct, message)
         return cond
 
+    def guarded(self, rid, anchor, fn, *args):
+        """run a (shared) rule; a Python-level error of the interpreted code inside it is a finding, not a crash"""
+        try:
+            return fn(*args)
+        except AnalysisError:
+            raise
+        except (KeyError, TypeError, AttributeError, ValueError, IndexError, ZeroDivisionError, AssertionError, RuntimeError) as e:
+            self.bad(rid, anchor, getattr(anchor, "node", None), f"{fn.__name__}:fails",
+                     f"{fn.__name__}: the interpreted code fails with {type(e).__name__}: {e}")
+
     def need(self, cond, msg):
         """Fail closed: the analysis does not understand the program."""
         if not cond:
